@@ -283,6 +283,24 @@ pub fn run(ctx: &Ctx) -> i32 {
             }
         }
     }
+    // only the space separates a command from its arguments: a name glued to anything by another
+    // white-space character is not a documented command line (and must not be read as the bare
+    // command with the rest dropped)
+    for (name, _, args) in DOCUMENTED {
+        for sep in ['\t', '\u{A0}', '\u{2003}', '\r', '\u{B}', '\u{C}'] {
+            for tail in [args.trim_start(), "garbage", "r1", "3 zzz"] {
+                if tail.is_empty() {
+                    continue;
+                }
+                acc.eval("c/other-white-space");
+                let text = format!("{name}{sep}{tail}");
+                match guard(|| verif_parse_command(&text)) {
+                    Ok(Err(_)) => acc.nontrivial(),
+                    other => acc.violation(format!("C14/name/other-white-space-separates/{}", if sep == '\t' { "tab" } else { "other" }), format!("`{}` (a {:?} between name and rest) should be rejected, got {other:?}", text.escape_debug(), sep), json!({"line": text})),
+                }
+            }
+        }
+    }
     // arguments documented as optional (`COUNT?`, `LOCATION?` in help.txt): the bare command means the documented default
     for (bare, explicit) in [("step into", "step into 1"), ("si", "si 1"), ("print", "print ^"), ("p", "p ^"), ("assembly", "assembly ^"), ("a", "a ^"), ("PRINT", "print ^0")] {
         acc.eval("c/documented-defaults");
@@ -482,7 +500,7 @@ pub fn run(ctx: &Ctx) -> i32 {
         ctx,
         acc,
         Level { category: "model_checking", bfs: None },
-        "bounded-exhaustive enumeration: (a) every string of length 1..=5 (quick) / 6 (thorough) over the 19-character alphabet {+ - # x o b 0 1 7 9 a f g ^ r _ é ı Ų} in each of six argument positions (integer value, step count, location of print / move, address of goto / break add), parsed by the real command parser and by the reference recogniser of the documented grammar: same acceptance and, when accepted, the same command with the same values (Debug rendering); (b) every value 0..65535 and -1..-32768 in every documented spelling (sign before or after the prefix, optional leading zero, 4 radices, letter case, leading zeros) as integer, as address and as PC offset, plus the i32 boundary and the values MAX/radix (+1) in each radix, bare and followed by label characters or an offset, and tokens of 250-260 and 510-514 digits; (c) every name documented in help.txt in three letter cases and every word of <= 3 letters with four argument shapes (totality, case-insensitivity); (d) every token of length <= 3 (thorough 4, stride 5) through the real debugger (`move r1 T`, `goto T`, `break add T`) against the reference debugger: accepted tokens have exactly the documented effect, rejected ones none; (e) 18 scripts (incl. 2-, 3- and 4-byte characters) x every split point between --command and stdin x ';'/newline per gap x trailing separator through the real binary: identical exit status, stdout and stderr. A seeded random supplement of longer strings with multi-byte characters is run and reported separately (sampling, not part of the exhaustive claim). non-trivial = accepted-and-equal parses + agreeing sessions / variants",
+        "bounded-exhaustive enumeration: (a) every string of length 1..=5 (quick) / 6 (thorough) over the 19-character alphabet {+ - # x o b 0 1 7 9 a f g ^ r _ é ı Ų} in each of six argument positions (integer value, step count, location of print / move, address of goto / break add), parsed by the real command parser and by the reference recogniser of the documented grammar: same acceptance and, when accepted, the same command with the same values (Debug rendering); (b) every value 0..65535 and -1..-32768 in every documented spelling (sign before or after the prefix, optional leading zero, 4 radices, letter case, leading zeros) as integer, as address and as PC offset, plus the i32 boundary and the values MAX/radix (+1) in each radix, bare and followed by label characters or an offset, and tokens of 250-260 and 510-514 digits; (c) every name documented in help.txt in three letter cases, every name glued to a rest by a white-space character other than the space (rejected), and every word of <= 3 letters with four argument shapes (totality, case-insensitivity); (d) every token of length <= 3 (thorough 4, stride 5) through the real debugger (`move r1 T`, `goto T`, `break add T`) against the reference debugger: accepted tokens have exactly the documented effect, rejected ones none; (e) 18 scripts (incl. 2-, 3- and 4-byte characters) x every split point between --command and stdin x ';'/newline per gap x trailing separator through the real binary: identical exit status, stdout and stderr. A seeded random supplement of longer strings with multi-byte characters is run and reported separately (sampling, not part of the exhaustive claim). non-trivial = accepted-and-equal parses + agreeing sessions / variants",
         true,
         &["strings-enumerated", "transport-variants-agree"],
         &["reference grammar = refmodel::cmdlang, validated against the repository's own parser tests by `lacemc selftest`", "negative step counts are not judged (help.txt says Integer, a code comment says non-positive means 1, the code casts to u16)"],
